@@ -80,17 +80,44 @@ structure Hit where
 
 abbrev M := Hit   -- after LoadDocumentValues: same shape, `vals` loaded
 
+/-! value sources: `<field>` or `<field>!<op>.<arg>…` (a filtering source, see the harness) -/
+
+def splitSrc (s : String) : String × Option (String × List String) :=
+  match s.splitOn "!" with
+  | [f, p] => match p.splitOn "." with
+      | op :: args => (f, some (op, args))
+      | [] => (f, none)
+  | _ => (s, none)
+
+def parseNSrc (s : String) : NSrc Float :=
+  match splitSrc s with
+  | (f, some ("ge", [t])) => { field := f, pred := some (.ge (ofHex t)) }
+  | (f, some ("lt", [t])) => { field := f, pred := some (.lt (ofHex t)) }
+  | (f, _) => { field := f }
+
+def parseTSrc (s : String) : TSrc :=
+  match splitSrc s with
+  | (f, some ("in", vs)) => { field := f, pred := some (.isIn vs) }
+  | (f, some ("ni", vs)) => { field := f, pred := some (.notIn vs) }
+  | (f, _) => { field := f }
+
+def parseDSrc (s : String) : DSrc :=
+  match splitSrc s with
+  | (f, some ("ge", [t])) => { field := f, pred := (t.toInt?).map .ge }
+  | (f, some ("lt", [t])) => { field := f, pred := (t.toInt?).map .lt }
+  | (f, _) => { field := f }
+
 def parseMetric (s : String) : Option (Metric Float) :=
   match s.splitOn ":" with
   | ["count"] => some .count
   | [k, args] =>
     match k, args.splitOn "," with
-    | "sum", [f] => some (.sum f)
-    | "min", [f] => some (.min f)
-    | "max", [f] => some (.max f)
-    | "avg", [f] => some (.avg f)
-    | "maxs", [f, i] => some (.maxFrom f (ofHex i))
-    | "wavg", [f, w] => some (.wavg f w)
+    | "sum", [f] => some (.sum (parseNSrc f))
+    | "min", [f] => some (.min (parseNSrc f))
+    | "max", [f] => some (.max (parseNSrc f))
+    | "avg", [f] => some (.avg (parseNSrc f))
+    | "maxs", [f, i] => some (.maxFrom (parseNSrc f) (ofHex i))
+    | "wavg", [f, w] => some (.wavg (parseNSrc f) (parseNSrc w))
     | _, _ => none
   | _ => none
 
@@ -106,8 +133,8 @@ def outsideInt64 (x : Int) : Bool := x < -(2 ^ 63 : Int) || x ≥ (2 ^ 63 : Int)
 
 def parseSub (s : String) : Option (SubAgg Float) :=
   match s.splitOn ":" with
-  | ["card", f] => some (.card f)
-  | ["quant", f] => some (.quant f)
+  | ["card", f] => some (.card (parseTSrc f))
+  | ["quant", f] => some (.quant (parseNSrc f))
   | _ => (parseMetric s).map .metric
 
 def parseAgg (s : String) : Option (Agg Float) :=
@@ -115,17 +142,17 @@ def parseAgg (s : String) : Option (Agg Float) :=
     | [h, t] => (h, (t.splitOn "+").filterMap parseSub)
     | _ => (s, [])
   match head.splitOn ":" with
-  | ["card", f] => some (.card f)
-  | ["quant", f] => some (.quant f)
+  | ["card", f] => some (.card (parseTSrc f))
+  | ["quant", f] => some (.quant (parseNSrc f))
   | ["terms", args] => match args.splitOn "," with
-      | [f, n] => n.toNat?.map fun n => .terms f n subs
+      | [f, n] => n.toNat?.map fun n => .terms (parseTSrc f) n subs
       | _ => none
   | ["ranges", args] => match args.splitOn "," with
-      | f :: rs => some (.ranges f (rs.filterMap fun r => match r.splitOn "~" with
+      | f :: rs => some (.ranges (parseNSrc f) (rs.filterMap fun r => match r.splitOn "~" with
           | [a, b] => some (ofHex a, ofHex b) | _ => none) subs)
       | _ => none
   | ["dranges", args] => match args.splitOn "," with
-      | f :: rs => some (.dranges f (rs.filterMap fun r => match r.splitOn "~" with
+      | f :: rs => some (.dranges (parseDSrc f) (rs.filterMap fun r => match r.splitOn "~" with
           | [a, b] => some (parseBound a, parseBound b) | _ => none) subs)
       | _ => none
   | _ => (parseMetric head).map .metric
@@ -451,7 +478,28 @@ def reqStep (st : St) (ws : List String) (impl : String) : St × String × Strin
         | .dranges f rs _ => rs.any fun r => (r.1.any outsideInt64 || r.2.any outsideInt64) &&
             (occR (dateSrc f) inDateRange r trueMs).length > 0
         | _ => false) then ["date-range-far-bound-nonempty"] else [])
-  let brs := brs ++ loadBr ++ termBr ++ sketchBr ++ dateBr ++ (if hits.isEmpty then ["no-match"] else [])
+  -- filtering sources; a bucket aggregation over a filtered source with a nested reader of the plain field
+  let bucketSrc : Agg Float → Option (Field × Bool) := fun a => match a with
+    | .terms f _ _ => some (f.field, f.pred.isSome)
+    | .ranges f _ _ => some (f.field, f.pred.isSome)
+    | .dranges f _ _ => some (f.field, f.pred.isSome)
+    | _ => none
+  let plainReader (x : SubAgg Float) (fld : Field) : Bool := match x with
+    | .card g => g.field == fld && g.pred.isNone
+    | .quant g => g.field == fld && g.pred.isNone
+    | .metric (.sum g) | .metric (.min g) | .metric (.max g) | .metric (.avg g) | .metric (.maxFrom g _) => g.field == fld && g.pred.isNone
+    | .metric (.wavg g w) => (g.field == fld && g.pred.isNone) || (w.field == fld && w.pred.isNone)
+    | _ => false
+  let filtBr := (if (splitKV ws "a").contains '!' then ["filtered-source"] else [])
+    ++ (if aggs.any (fun a => match bucketSrc a with
+          | some (fld, true) => (subsOf a).any fun x => plainReader x fld
+          | _ => false) then ["filtered-source-nested-reader-same-field"] else [])
+    ++ (if aggs.any (fun a => match a with
+          | .terms f _ _ => f.pred.isSome && (subsOf a).any (fun x => plainReader x f.field) &&
+              trueMs.any (fun d => (txtSrc (α := Float) f d).length < (d.txt f.field).length &&
+                (d.txt f.field).head? != (txtSrc (α := Float) f d).head?)
+          | _ => false) then ["filter-drops-an-earlier-value-with-nested-reader"] else [])
+  let brs := brs ++ loadBr ++ termBr ++ sketchBr ++ dateBr ++ filtBr ++ (if hits.isEmpty then ["no-match"] else [])
     ++ (if compared then ["paging-compared"] else [])
   ({ st with memo := memo }, modelStr, verdict ++ " br=" ++ ",".intercalate brs.eraseDups)
 
